@@ -53,7 +53,9 @@ def units(tier, seed):
     vecs += [[5e-5, 5e-5, 90e-5], [0.5e-4, 1.5e-4], [0, 0, 2.5e-5, 2.5e-5]]
     for v in vecs:
         us.append({"kind": "weighted", "weights": v, "full": True})
-    big = [[5, 5, 90], [0, 1], [1, 0], [0, 0, 1], [0.5, 0.5], [1.0, 0.0], [0.2, 0.3, 0.5], [0, 3, 0, 1]]
+    big = [[5, 5, 90], [0, 1], [1, 0], [0, 0, 1], [0.5, 0.5], [1.0, 0.0], [0.2, 0.3, 0.5], [0, 3, 0, 1],
+           # running float sums that drift away from the exactly rounded total, zero weight first / last
+           [0, 0.2, 0.7, 0.1], [0] + [0.1] * 10, [0.1] * 10 + [0], [0, 0.7, 0.2, 0.1]]
     for v in big:
         us.append({"kind": "weighted", "weights": v, "full": tier != "quick" and sum(v) <= 2})
     for src in ("ge", "stack", "sge", "dsge"):
@@ -61,6 +63,8 @@ def units(tier, seed):
             us.append({"kind": "wrapper", "src": src, "L": L})
     us.append({"kind": "native", "seeds": 32 if tier == "quick" else 256, "seed": seed})
     us.append({"kind": "native-streams", "seed": seed, "len": 2 if tier == "quick" else 3})
+    for src in ("ge", "stack", "sge", "dsge", "native"):
+        us.append({"kind": "interleaved-streams", "src": src, "draws": 3 if tier == "quick" else 4})
     for lo, hi in BOUNDS:
         us.append({"kind": "decider", "lo": lo, "hi": hi})
         us.append({"kind": "dsge-decider", "lo": lo, "hi": hi})
@@ -281,6 +285,41 @@ def run_unit(unit) -> UnitResult:
         r.states = len(ops) ** unit["len"]
         r.nontrivial = r.states
         r.samples.append({"op_sequences": r.states})
+    elif k == "interleaved-streams":
+        # two sources over the same genes (seed) used side by side, a third one created in between: every schedule
+        # of their draws must give each source the stream it produces on its own
+        D = unit["draws"]
+        ops = [lambda s: s.randint(0, 9), lambda s: s.choice("abcde"), lambda s: s.choice_weighted("xyz", [0, 1, 2]), lambda s: tuple(s.shuffle([1, 2, 3]))]
+        dnas = [[7, 1, 12, 5], [3, 3, 4], [0, 1025, 2, 9, 11]]
+        for dna in dnas:
+            def mk(dna=dna):
+                return NativeRandomSource(dna[0]) if unit["src"] == "native" else _wrapper(unit["src"], list(dna))
+            solo = mk()
+            reference = [ops[i % 4](solo) for i in range(D)]
+            scheds = set()
+            for bits in itertools.product("ABC", repeat=2 * D + 1):
+                if bits.count("A") == D and bits.count("B") == D:
+                    scheds.add(bits)
+            for sched in sorted(scheds):
+                a, b = mk(), mk()
+                out = {"A": [], "B": []}
+                for ev in sched:
+                    if ev == "C":
+                        mk()
+                    else:
+                        srcobj = a if ev == "A" else b
+                        out[ev].append(ops[len(out[ev]) % 4](srcobj))
+                r.executions += 1
+                r.count("schedules")
+                if sched != tuple("A" * D + "B" * D + "C"):
+                    r.nontrivial += 1
+                if out["A"] != reference or out["B"] != reference:
+                    r.add_violation(V(f"{unit['src']}.source", "stream-depends-on-other-live-sources", {"src": unit["src"]},
+                                      dict(w0, dna=dna, schedule="".join(sched)),
+                                      f"{unit['src']} source over genes {dna}: alone {reference}; under schedule {''.join(sched)} A={out['A']} B={out['B']}"))
+                    break
+        r.states = len(dnas)
+        r.samples.append({"interleaved": unit["src"], "draws_per_source": D})
     elif k in ("decider", "dsge-decider"):
         lo, hi = unit["lo"], unit["hi"]
         if k == "decider":
